@@ -11,16 +11,16 @@ def handle (fn : String) (args : List Json) : String :=
     | [a0] => (do let x0 ← Wire.decStr a0; pure (Wire.respondWith Wire.encStr (Gen.be_ssn.format x0)) : Option String).getD "badargs"
     | _ => "badargs"
   | "get_birth_month" => match args with
-    | [t, a0] => (do let today ← Wire.decDate t; let x0 ← Wire.decStr a0; pure (Wire.respondWith (Wire.encOpt Wire.encInt) (Gen.be_ssn.get_birth_month today x0)) : Option String).getD "badargs"
+    | [t, a0] => (do let today__ ← Wire.decDate t; let x0 ← Wire.decStr a0; pure (Wire.respondWith (Wire.encOpt Wire.encInt) (Gen.be_ssn.get_birth_month today__ x0)) : Option String).getD "badargs"
     | _ => "badargs"
   | "get_birth_year" => match args with
-    | [t, a0] => (do let today ← Wire.decDate t; let x0 ← Wire.decStr a0; pure (Wire.respondWith (Wire.encOpt Wire.encInt) (Gen.be_ssn.get_birth_year today x0)) : Option String).getD "badargs"
+    | [t, a0] => (do let today__ ← Wire.decDate t; let x0 ← Wire.decStr a0; pure (Wire.respondWith (Wire.encOpt Wire.encInt) (Gen.be_ssn.get_birth_year today__ x0)) : Option String).getD "badargs"
     | _ => "badargs"
   | "is_valid" => match args with
-    | [t, a0] => (do let today ← Wire.decDate t; let x0 ← Wire.decStr a0; pure (Wire.respondWith Wire.encBool (Gen.be_ssn.is_valid today x0)) : Option String).getD "badargs"
+    | [t, a0] => (do let today__ ← Wire.decDate t; let x0 ← Wire.decStr a0; pure (Wire.respondWith Wire.encBool (Gen.be_ssn.is_valid today__ x0)) : Option String).getD "badargs"
     | _ => "badargs"
   | "validate" => match args with
-    | [t, a0] => (do let today ← Wire.decDate t; let x0 ← Wire.decStr a0; pure (Wire.respondWith Wire.encStr (Gen.be_ssn.validate today x0)) : Option String).getD "badargs"
+    | [t, a0] => (do let today__ ← Wire.decDate t; let x0 ← Wire.decStr a0; pure (Wire.respondWith Wire.encStr (Gen.be_ssn.validate today__ x0)) : Option String).getD "badargs"
     | _ => "badargs"
   | _ => "nofunc"
 end Driver.D_be_ssn
